@@ -168,9 +168,9 @@ def run(pid, tier):
         return c, lib.tlc('MCHeap', c[0], workers=4, timeout=600 if quick else 900, xmx='4g')
     def sim():
         return (('MCHeap_sim.cfg', 'sizes 12..16 x cap 4, two codes, random histories of 40 operations'),
-                lib.tlc('MCHeap', 'MCHeap_sim.cfg', workers=2, timeout=600, simulate=1500 if quick else 6000, depth=40, xmx='2g'))
+                lib.tlc('MCHeap', 'MCHeap_sim.cfg', workers=4, timeout=600, simulate=600, depth=40, xmx='2g'))
     ex = concurrent.futures.ThreadPoolExecutor(max_workers=2)
-    futs = [ex.submit(mc, c) for c in mcs] + [ex.submit(sim)]
+    futs = [ex.submit(mc, c) for c in mcs] + ([] if quick else [ex.submit(sim)])
     # ---- X (runs while the model checker works)
     pairs = QUICK_X + (QUICK_X_EXTRA if quick else THOROUGH_X_EXTRA)
     proj_quick = set()
